@@ -8,6 +8,11 @@
 // Association().Find() are compared through the operated value and through a fresh value,
 // and the distinct keys held by the in-memory relation field of every owner value that
 // received every operation are compared with the model.
+//
+// Sessions: steps are also made behind db.Session(&gorm.Session{FullSaveAssociations: true}); in such
+// a step one of the values of the call may, for the time of the call, be held by another relation
+// field of the owner value as well (relSpec.others, type held): gorm then meets the same value twice
+// in one save, and the relation of the kind must still come out as the call defines it.
 package c12
 
 import (
@@ -44,6 +49,11 @@ func initEnv(c *core.Ctx) {
 			}
 		}
 	}
+	for _, s := range specs {
+		if setupErr[s.group] == nil {
+			must(s.checkOthers(h.DB))
+		}
+	}
 	H = h
 }
 
@@ -77,11 +87,61 @@ type step struct {
 	hard     bool // db.Unscoped() as well (permanent delete of soft-delete targets)
 	byVal    bool // slice-level call on a []*Owner passed by value: db.Model(owners)
 	sliceLvl bool
-	none     bool // Append / Replace that names no target at all: no argument, or only empty / nil slices
-	via      int  // how the association handle of the call is obtained (viaChain ...)
+	none     bool  // Append / Replace that names no target at all: no argument, or only empty / nil slices
+	via      int   // how the association handle of the call is obtained (viaChain ...)
+	full     bool  // the call is made in a db.Session(&gorm.Session{FullSaveAssociations: true})
+	held     *held // full Append / Replace: one of the values the call deals with is held by another relation field of the owner value too
 	owners   []*ownerVal
 	args     []arg
 	call     string
+}
+
+// held: for the time of one call, another relation field of an owner value of the call (relSpec.others) holds
+// a pointer to a value that the relation field of the kind holds after the call as well - one of the values
+// passed to the call (the very value, not a copy), or (Append) one the field holds already.
+type held struct {
+	other  other
+	owner  int // index in step.owners
+	ai, ti int // the ti-th value of the ai-th argument, or
+	mi     int // (ai < 0) the mi-th element of the relation field
+	expr   string
+	t      *targ // the argument target (nil for an element of the field)
+	// observed when the call is made
+	key  string // key of the record the value names ("" = brand-new record without a key)
+	pos  int    // position of the value in the relation field after the call ...
+	n    int    // ... which then holds n elements,
+	same int    // `same` of them being this very value;
+	// gorm saves the first element of every key (elements without a key: all of them): of these
+	rest     int  // `rest` are other values,
+	lastElem bool // and the last one is this very value
+}
+
+// argPtr: pointer to the i-th value an argument carries (the value itself, whatever the literal form).
+func argPtr(a arg, i int) reflect.Value {
+	v := reflect.ValueOf(a.val)
+	switch a.form {
+	case "ptr":
+		return v
+	case "slice":
+		return v.Index(i).Addr()
+	case "ptrslice":
+		return v.Elem().Index(i).Addr()
+	case "sliceptr":
+		return v.Index(i)
+	}
+	panic("argPtr: form " + a.form)
+}
+
+func argPtrLit(name string, a arg, i int) string {
+	switch a.form {
+	case "ptr":
+		return name
+	case "slice":
+		return fmt.Sprintf("&%s[%d]", name, i)
+	case "ptrslice":
+		return fmt.Sprintf("&(*%s)[%d]", name, i)
+	}
+	return fmt.Sprintf("%s[%d]", name, i)
 }
 
 func (st *step) flat() []*targ {
@@ -677,6 +737,11 @@ func (k *kase) genStep(i int) *step {
 	case 2:
 		st.unscoped = r.Bool()
 	}
+	// one call in four (kinds whose owner has further relations to the same records: one in two) is made in a
+	// session that saves a value with ALL its relations
+	if r.Chance(1, 4) || (len(s.others) > 0 && r.Chance(1, 3)) {
+		st.full = true
+	}
 	reads := st.op == "Count" || st.op == "Find"
 	if st.unscoped && (s.soft || s.softJoin) && s.store != fkOwner && !reads {
 		// (Count / Find through db.Unscoped() read soft-deleted rows on purpose: not generated;
@@ -828,6 +893,7 @@ func (k *kase) genStep(i int) *step {
 	} else if r.Chance(1, 3) {
 		st.via = viaSibling
 	}
+	k.genHeld(st)
 	// literal call
 	recv := st.owners[0].lit
 	if st.sliceLvl {
@@ -837,8 +903,11 @@ func (k *kase) genStep(i int) *step {
 		}
 	}
 	db := "db"
+	if st.full {
+		db = "db.Session(&gorm.Session{FullSaveAssociations: true})"
+	}
 	if st.hard {
-		db = "db.Unscoped()"
+		db += ".Unscoped()"
 	}
 	call := fmt.Sprintf("%s.Model(%s).Association(%q)", db, recv, s.field)
 	if st.via == viaSibling {
@@ -854,14 +923,70 @@ func (k *kase) genStep(i int) *step {
 	for _, a := range st.args {
 		lits = append(lits, a.lit)
 	}
+	if h := st.held; h != nil {
+		// the arguments are named, so that the literal can show which value the other field holds
+		pre := ""
+		for i, a := range st.args {
+			pre += fmt.Sprintf("a%d := %s; ", i+1, a.lit)
+			lits[i] = fmt.Sprintf("a%d", i+1)
+		}
+		ov := strings.TrimPrefix(st.owners[h.owner].lit, "&")
+		if h.ai >= 0 {
+			h.expr = argPtrLit(fmt.Sprintf("a%d", h.ai+1), st.args[h.ai], h.ti)
+		} else {
+			h.expr = fmt.Sprintf("%s.%s[%d]", ov, s.field, h.mi)
+		}
+		call = fmt.Sprintf("%s%s.%s = %s; %s", pre, ov, h.other.field, h.expr, call)
+	}
 	switch st.op {
 	case "Find":
 		call += ".Find(&out)"
 	default:
 		call += "." + st.op + "(" + strings.Join(lits, ", ") + ")"
 	}
+	if h := st.held; h != nil {
+		call += fmt.Sprintf("; %s.%s = nil", strings.TrimPrefix(st.owners[h.owner].lit, "&"), h.other.field)
+	}
 	st.call = call
 	return st
+}
+
+// genHeld: two full Append / Replace calls in three (kinds with relSpec.others, calls that name a target):
+// before the call the caller stores, in another relation field of one owner value of the call, a pointer to
+// one of the values this call passes for that owner (any position, any class) or (Append, one in four) to a
+// value the relation field holds already; after the call the other field is set to nil again. The relation
+// of the kind must come out as the call defines it - whatever else a full save stores on the way.
+func (k *kase) genHeld(st *step) {
+	r, s := k.r, k.spec
+	if !st.full || st.none || len(s.others) == 0 || (st.op != "Append" && st.op != "Replace") || !r.Chance(2, 3) {
+		return
+	}
+	h := &held{other: core.Pick(r, s.others), owner: r.Intn(len(st.owners)), ai: -1}
+	type cand struct{ ai, ti int }
+	var cands []cand
+	for ai, a := range st.args {
+		if st.sliceLvl && ai != h.owner {
+			continue
+		}
+		for ti := range a.ts {
+			cands = append(cands, cand{ai, ti})
+		}
+	}
+	nMem := reflect.Indirect(st.owners[h.owner].ptr.Elem().FieldByName(s.field)).Len()
+	switch {
+	case st.op == "Append" && nMem > 0 && len(cands) > 0 && r.Chance(1, 4):
+		h.mi = r.Intn(nMem)
+	case len(cands) > 0:
+		// (the last value passed is as likely as all the others together)
+		c := cands[len(cands)-1]
+		if r.Bool() {
+			c = core.Pick(r, cands)
+		}
+		h.ai, h.ti, h.t = c.ai, c.ti, st.args[c.ai].ts[c.ti]
+	default:
+		return
+	}
+	st.held = h
 }
 
 // genNone: every now and then an Append / Replace names no target at all - no argument (typically
@@ -889,6 +1014,9 @@ func (k *kase) genNone(st *step) bool {
 
 func (k *kase) assoc(recv interface{}, st *step) *gorm.Association {
 	db := H.DB.Session(&gorm.Session{})
+	if st != nil && st.full {
+		db = H.DB.Session(&gorm.Session{FullSaveAssociations: true})
+	}
 	if st != nil && st.hard {
 		db = db.Unscoped()
 	}
@@ -1009,6 +1137,40 @@ func (k *kase) exec(st *step) (err error, count int64, found []string) {
 	vals := make([]interface{}, len(st.args))
 	for i, a := range st.args {
 		vals[i] = a.val
+	}
+	if h := st.held; h != nil {
+		ov := st.owners[h.owner].ptr.Elem()
+		rel := func() reflect.Value { return reflect.Indirect(ov.FieldByName(k.spec.field)) }
+		var p reflect.Value
+		if h.ai >= 0 {
+			p = argPtr(st.args[h.ai], h.ti)
+		} else {
+			p = rel().Index(h.mi)
+		}
+		ov.FieldByName(h.other.field).Set(p)
+		defer func() {
+			ov.FieldByName(h.other.field).Set(reflect.Zero(p.Type()))
+			h.key = k.spec.pkOf(p.Elem())
+			f := rel()
+			h.n, h.pos, h.same, h.rest = f.Len(), -1, 0, 0
+			seen := map[string]bool{}
+			for i := 0; i < f.Len(); i++ {
+				is := f.Index(i).Pointer() == p.Pointer()
+				if is {
+					h.pos = i
+					h.same++
+				}
+				key := k.spec.pkOf(f.Index(i).Elem())
+				if key != "" && seen[key] {
+					continue
+				}
+				seen[key] = true
+				h.lastElem = is
+				if !is {
+					h.rest++
+				}
+			}
+		}()
 	}
 	switch st.op {
 	case "Append":
@@ -1278,6 +1440,25 @@ func (k *kase) run() {
 		snap := k.snapshot()
 		err, count, found := k.exec(st)
 		var ps []problem
+		if st.full {
+			c.Inc("steps_in_a_full_save_session")
+			c.Inc("steps_in_a_full_save_session_" + st.op)
+		}
+		if h := st.held; h != nil {
+			c.Inc("full_save_calls_with_a_value_held_by_another_relation_too")
+			c.Inc("full_save_calls_with_a_value_held_by_" + s.ownerT.Name() + "." + h.other.field)
+			if h.ai < 0 {
+				c.Inc("full_save_calls_held_value_is_an_element_the_field_held_before")
+			}
+			switch {
+			case h.rest == 0:
+				c.Inc("full_save_calls_held_value_is_all_the_field_holds")
+			case h.lastElem:
+				c.Inc("full_save_calls_held_value_is_the_last_of_several_values")
+			case h.pos >= 0:
+				c.Inc("full_save_calls_held_value_is_followed_by_other_values")
+			}
+		}
 		if st.none {
 			c.Inc("steps_naming_no_target_" + st.op)
 			if len(st.args) == 0 {
@@ -1413,7 +1594,14 @@ func (k *kase) run() {
 		if st.none {
 			cls[fmt.Sprintf("none(%d args)", len(st.args))] = true
 		}
-		k.shape = append(k.shape, fmt.Sprintf("%s/%v/%v/%s/%v", st.op, st.unscoped, st.sliceLvl, strings.Join(sortedKeys(cls), "+"), eff.changed))
+		sh := fmt.Sprintf("%s/%v/%v/%s/%v", st.op, st.unscoped, st.sliceLvl, strings.Join(sortedKeys(cls), "+"), eff.changed)
+		if st.full {
+			sh += "/full"
+		}
+		if h := st.held; h != nil {
+			sh += fmt.Sprintf("/%s:%v:%v", h.other.field, h.lastElem, h.rest == 0)
+		}
+		k.shape = append(k.shape, sh)
 	}
 	if k.changes >= 2 {
 		c.Shape(s.name, k.pool, k.mode, k.ptrElems, k.um, strings.Join(k.shape, ";"))
@@ -1486,6 +1674,7 @@ type snapshot struct {
 	links map[string]map[string]bool
 	dead  map[string]map[string]int  // soft-delete join model: soft-deleted join rows stored before the step
 	mem   map[string]map[string]bool // owner key -> keys held by its operated value
+	raw   map[string]string          // belongs to through several key columns: the key columns of every owner row as stored before the step
 }
 
 func cloneSets(m map[string]map[string]bool) map[string]map[string]bool {
@@ -1501,6 +1690,9 @@ func cloneSets(m map[string]map[string]bool) map[string]map[string]bool {
 
 func (k *kase) snapshot() *snapshot {
 	sn := &snapshot{links: cloneSets(k.m.links), mem: map[string]map[string]bool{}, dead: k.spec.readDead()}
+	if k.spec.store == fkOwner && len(k.spec.fks) > 1 {
+		sn.raw = k.spec.readRawFK()
+	}
 	for _, ov := range k.vals {
 		sn.mem[ov.ok] = map[string]bool{}
 		for t := range ov.mem {
@@ -1641,6 +1833,10 @@ func (k *kase) sig(st *step, ps []problem, sn *snapshot, applied bool) string {
 			alt[ov.ok] = set
 		}
 		if shifted && sameLinks(alt, stored) && !sameLinks(k.m.links, stored) {
+			if st.full {
+				// (the known finding is about the ON CONFLICT DO NOTHING insert of a call outside a full-save session)
+				return "many2many-keyless-new-record-after-keyed-new-record-takes-its-key:full-save"
+			}
 			return "many2many-keyless-new-record-after-keyed-new-record-takes-its-key"
 		}
 	}
@@ -1659,6 +1855,42 @@ func (k *kase) sig(st *step, ps []problem, sn *snapshot, applied bool) string {
 		}
 		if dropped && sameLinks(alt, stored) && !sameLinks(k.m.links, stored) {
 			return "many2many-soft-delete-join-model-relink-after-removal-not-stored"
+		}
+	}
+	if applied && st.full && s.store == fkOwner && len(s.fks) > 1 && (st.op == "Append" || st.op == "Replace") {
+		// counterfactual: in a full-save session the owner row is written without a column selection, so a
+		// written: that part keeps what the row held before (NULL, or the part of the previous key)
+		alt := cloneSets(k.m.links)
+		kept := false
+		for i, ov := range st.owners {
+			ts, old := argKeys(st, i), sn.raw[ov.ok]
+			if len(ts) != 1 || old == "" {
+				continue
+			}
+			np, op := keyParts(s.fks, ts[0]), keyParts(s.fks, old)
+			for j, f := range s.fks {
+				if np[j] == "" || (f.isInt && np[j] == "0") {
+					kept = kept || np[j] != op[j]
+					np[j] = op[j]
+				}
+			}
+			alt[ov.ok] = map[string]bool{strings.Join(np, ksep): true}
+		}
+		if kept && sameLinks(alt, stored) && !sameLinks(k.m.links, stored) {
+			return "belongs-to-full-save-keeps-old-value-of-zero-valued-key-part:" + s.name
+		}
+	}
+	if h := st.held; applied && h != nil && s.store == fkTarget && h.rest == 0 && h.key != "" && only("links", "count", "find", "inmemory") {
+		// counterfactual: every value the relation field holds was saved through ANOTHER relation field of
+		// the owner value earlier in the same full save, and the save of this relation was skipped as
+		// "saved already": the row of the value carries the key column as the value held it before the call
+		// (none - the values passed are not loaded from a link) and the link is not stored
+		alt := cloneSets(k.m.links)
+		for o := range alt {
+			delete(alt[o], h.key)
+		}
+		if sameLinks(alt, stored) && !sameLinks(k.m.links, stored) {
+			return "full-save-skips-relation-whose-values-were-all-saved-through-another-relation:" + s.name
 		}
 	}
 	if s.store == fkOwner && (!applied || sameLinks(k.m.links, stored)) {
@@ -1725,6 +1957,9 @@ func (k *kase) sig(st *step, ps []problem, sn *snapshot, applied bool) string {
 	if st.unscoped {
 		parts = append(parts, "unscoped")
 	}
+	if st.full {
+		parts = append(parts, "full-save")
+	}
 	if st.via == viaTwice && only("records") {
 		parts = append(parts, "unscoped-twice")
 	}
@@ -1753,6 +1988,8 @@ var Engine = &core.Engine{
 		"polymorphic shapes: polymorphic:Owner, polymorphicType + polymorphicId named one by one, and a polymorphicValue chosen by the application (usr) next to a decoy owner type with the default value) " +
 		"x owner mode (one owner value; two owner values; a slice of 1..3 owner values - []Owner or []*Owner, the latter also passed by value - incl. calls on single elements) x scoping (scoped; Unscoped; mixed) are enumerated from the case index; " +
 		"owners/targets/links are seeded with raw SQL (bystander owners, a decoy polymorphic owner type with equal keys, optionally links of the operated owners; soft-delete kinds: 0..3 leftovers of earlier removals that are not links - soft-deleted target rows whose key column still names an owner, soft-deleted join rows); 3..8 random steps Append/Replace/Delete/Clear/Count/Find (every one of them, Count and Find included, through Association(..) or Association(..).Unscoped() according to the scoping of the case; writes on soft-delete kinds also behind db.Unscoped()) - how the handle is obtained varies: one chain; (one scoped call in three) a kept handle h from which an Unscoped() variant was derived first - h := db.Model(v).Association(f); purge := h.Unscoped(); h.Op(..), a scoped call that must only unlink: counted; (one Unscoped call in four) Association(f).Unscoped().Unscoped() - with targets drawn from brand-new (key from the database), brand-new with a key chosen by the application, a value of a record that an earlier Unscoped step of the sequence removed for good (key still set), existing unlinked, already linked, linked to another owner, duplicate-in-call, (slice-level Append / Replace on many-to-many and belongs-to kinds, one call in three per later owner) a record the same call names for an earlier owner of the slice as well, and (Delete) a record without a row, in literal forms &T, T, []T, &[]T, []*T; " +
+		"sessions: one step in four (kinds with further relations, below: about one in two) is made in db.Session(&gorm.Session{FullSaveAssociations: true}) - every operation, reads included; an Append / Replace then saves the owner value with ALL its relation fields and every column of the passed records, and must still define exactly the same links; " +
+		"a value held by TWO relation fields (kinds whose relation field holds pointers and whose owner model has further pointer relations to the same records through key columns of their own: has many with soft-delete targets + User.TopSItem (has one) / User.FavSItem (belongs to); many-to-many with renamed keys + Author.FavBook (belongs to); many-to-many with two-column string keys + Org.Main (belongs to, two key columns) - gorm saves belongs to before the owner row, then has one, has many, many-to-many): in two full-save Append / Replace calls in three that name a target, the caller first stores in such a field of one owner value of the call a pointer to one of the VERY values the call passes for that owner (any literal form: a, &a[i], &(*a)[i], a[i]; any target class; half of the time the last value passed, else any position) or (Append, one in four) to an element the relation field already holds, and sets the field to nil again after the call; counted by where the value ends up among the values gorm saves for the relation (the only one / the last of several / followed by others); " +
 		"calls that name NO target: about one Append in eight and one Replace in ten has no argument at all (Append(items...) with an empty list - every kind incl. has one / belongs to / polymorphic has one, one owner value and a slice of owner values) or (multi-valued kinds) only empty / nil slices ([]T{}, &[]T{}, []*T{}, []T(nil)); one call in ten (multi-valued Append/Replace, every Delete) carries such an empty slice among its other arguments; Delete without targets is Delete() or Delete(<empty slice>); Append of nothing must leave links, records, Count/Find and the in-memory field as they are (on owners that hold links: counted), Replace of nothing is Clear; " +
 		"after every step raw-SQL links and target rows, Count/Find (operated value and fresh value through a scoped handle, fresh value also through an Unscoped() association handle), Count/Find on SLICES of owner values (the operated slice; a fresh slice holding the operated owners in reverse order plus a bystander owner row, through a scoped and an Unscoped() association handle - in every owner mode, so records linked to several owners of the slice are the rule: counted) and the in-memory relation field are compared with the link-set model; on a slice, Count must be the number of (owner, target) links and Find must return one row per link; distinct = (kind, key pools, owner mode, slice element kind, scoping, per step: op, unscoped, slice-level, target classes, changed); non-trivial = at least two steps changed the link set",
 	Assumptions: []string{
@@ -1784,7 +2021,10 @@ var Engine = &core.Engine{
 		"soft-delete targets: a record deleted through Unscoped association mode must be soft-deleted or gone, with db.Unscoped() gone; whether older soft-deleted rows are purged later is not checked",
 		"belongs to through value key columns: a row whose key columns are all NULL or zero names no target",
 		"only existence of associated records is demanded, not their other columns",
-		"not generated: self-referential relations, FullSaveAssociations / Select / Omit sessions in front of Association(), conditions passed to Find",
+		"db.Session(&gorm.Session{FullSaveAssociations: true}) in front of Association() changes how much an Append / Replace stores (every column of the passed records - only the existence of records is demanded anyway - and every relation field of the owner value), not which links the call defines: the same oracle applies. Owner values hold nothing in their other relation fields, except for the one call in which a field is made to hold one of the values of that call; what the full save writes into the key column(s) of that OTHER relation (s_items.top_user_id, users.fav_s_item_id, authors.fav_book_no, orgs.main_p1/main_p2) is not checked",
+		"the other relation field is set right before the call and set to nil right after it (a pointer that stayed there would be saved again by every later full save of that owner value - also after the sequence removed its record - which the statement says nothing about); it only ever points to a value that the relation field of the kind holds after the call as well (Append: passed or already held; Replace: passed)",
+		"two deviations of the unchanged tree that this workload shows have signatures of their own, assigned by counterfactual: belongs-to-full-save-keeps-old-value-of-zero-valued-key-part:<kind> (full-save Append / Replace of a belongs-to target whose multi-column key has a zero-valued part: the stored key column(s) equal the new key except that every zero-valued part still holds what the row held before the call) and full-save-skips-relation-whose-values-were-all-saved-through-another-relation:<kind> (has many: every value gorm saves for the relation is the value another relation field holds; the stored links equal the model except that this record is linked to nobody)",
+		"not generated: self-referential and circular relations (a target that refers back to its owner), Select / Omit sessions in front of Association(), conditions passed to Find",
 	},
 	Cases: func(tier string) int {
 		// one block = every (relation kind, owner mode, scoping) once
